@@ -8,6 +8,7 @@ import (
 	"fmt"
 	"os"
 	"path/filepath"
+	"sort"
 	"strings"
 	"syscall"
 	"time"
@@ -247,24 +248,73 @@ func metaFilename(filename string) string {
 
 func (fs *filestore) Walk(ctx context.Context, bucket string, cb func(ctx context.Context, filename string, fInfo os.FileInfo) error) error {
 	root := filepath.Join(fs.gcsDir, bucket)
-	return filepath.Walk(root, func(path string, fInfo os.FileInfo, err error) error {
-		if strings.HasSuffix(path, metaExtention) {
-			// Ignore metadata files
-			return nil
-		}
-
-		filename := strings.TrimPrefix(path, root)
-		filename = strings.TrimPrefix(filename, string(os.PathSeparator))
-		if err != nil {
-			if os.IsNotExist(err) {
-				return err
-			}
-			return fmt.Errorf("walk error at %s: %w", filename, err)
-		}
-
-		if err := cb(ctx, filename, fInfo); err != nil {
+	fInfo, err := os.Lstat(root)
+	if err != nil {
+		if os.IsNotExist(err) {
 			return err
 		}
-		return nil
-	})
+		return fmt.Errorf("walk error at %s: %w", bucket, err)
+	}
+	if err := fs.walkDir(ctx, root, "", fInfo, cb); err != nil && err != filepath.SkipDir {
+		return err
+	}
+	return nil
+}
+
+// walkDir visits the directory at path (object name prefix filename) and everything below it in ascending
+// order of the object names. filepath.Walk does not do that: it orders each directory by entry name, which
+// puts everything under "a/" before "a.txt" although "a.txt" < "a/b".
+func (fs *filestore) walkDir(ctx context.Context, path string, filename string, fInfo os.FileInfo, cb func(ctx context.Context, filename string, fInfo os.FileInfo) error) error {
+	if err := cb(ctx, filename, fInfo); err != nil {
+		return err
+	}
+
+	entries, err := os.ReadDir(path)
+	if err != nil {
+		if os.IsNotExist(err) {
+			return nil // removed while walking
+		}
+		return fmt.Errorf("walk error at %s: %w", filename, err)
+	}
+	// A directory stands for the names that continue with "/", so that is how it sorts among its siblings.
+	sortKey := func(e os.DirEntry) string {
+		if e.IsDir() {
+			return e.Name() + "/"
+		}
+		return e.Name()
+	}
+	sort.Slice(entries, func(i, j int) bool { return sortKey(entries[i]) < sortKey(entries[j]) })
+
+	for _, e := range entries {
+		if strings.HasSuffix(e.Name(), metaExtention) {
+			// Ignore metadata files
+			continue
+		}
+		childName := e.Name()
+		if filename != "" {
+			childName = filename + "/" + e.Name()
+		}
+		info, err := e.Info()
+		if err != nil {
+			if os.IsNotExist(err) {
+				continue // removed while walking
+			}
+			return fmt.Errorf("walk error at %s: %w", childName, err)
+		}
+		if info.IsDir() {
+			err = fs.walkDir(ctx, filepath.Join(path, e.Name()), childName, info, cb)
+			if err == filepath.SkipDir {
+				continue
+			}
+		} else {
+			err = cb(ctx, childName, info)
+			if err == filepath.SkipDir {
+				return nil // as with filepath.Walk: skip the rest of this directory
+			}
+		}
+		if err != nil {
+			return err
+		}
+	}
+	return nil
 }
